@@ -158,6 +158,7 @@ structure Doc where
   namespaces : List Ns := []
   targetNamespaces : List Ns := []
   current : Option Ns := none
+  defaultNs : Option String := none      -- the file's default namespace (`xmlns="…"`), first declaration wins
   nodes : List RNode := []               -- in push order
   knownNodes : List RNode := []          -- what the importer had read before; lookups only
   resolving : List (String × Option String × String) := []   -- forward references being resolved (name, namespace, kind)
